@@ -551,7 +551,7 @@ def run(ctx, replay=None):
         # a seeded sample of the larger exhaustive sets (programs entered through the 1022-frame trampoline cost ~30 ms
         # each on each binary); the thorough tier runs the direct-entry sets completely; every simulated program is run
         caps = {'core_ann': 800, 'core_app': 800, 'crea_ref': 600, 'crea_app': 800, 'deep_ann': 500} if quick else \
-            {'deep_ann': 1500, 'deep_ref': 1500}
+            {'deep_ann': 1200, 'deep_ref': 1200}
         by = {}
         for t in traces:
             by.setdefault(t['cfg']['gen'], []).append(t)
